@@ -58,7 +58,17 @@ def run(ctx):
     states = [('genesis-only', zero), ('head-above-all-checkpoints', high), ('head-at-1234', mid)]
     for (sname, zero_), h in [(s_, h_) for s_ in states for h_ in sorted(T)]:
         right = bytes.fromhex(T[h])
-        blk = cand_block(h, gid, 1_700_000_000 + h)
+        # the candidate's parent really is at height h - 1 (a fabricated block put into the state through the reload entry
+        # point): a block below the horizon whose stated height is not its parent's plus one is refused whatever its id
+        if h == 0:
+            prev = b'\x00' * 32
+        elif h == 1:
+            prev = gid
+        else:
+            par = cand_block(h - 1, gid, 1_699_990_000 + h)
+            zero_ = zero_.add_block_no_validation(par)
+            prev = par.hash()
+        blk = cand_block(h, prev, 1_700_000_000 + h)
         for entry in ('validate', 'add_block'):
             for kind, b, expect_accept in (('wrong-id', blk, False), ('right-id', with_id(blk, right), True),
                                            ('id-of-neighbour-checkpoint', with_id(blk, bytes.fromhex(T[(h + 500) % (HORIZON + 500)])), False)):
@@ -80,15 +90,18 @@ def run(ctx):
                 distinct += 1
     # ---- (ii) horizon +-1
     unk = enc.sha256d(b'unknown parent')
-    b0 = with_id(cand_block(HORIZON, unk, 1_700_000_000), bytes.fromhex(T[HORIZON]))
+    p2 = cand_block(HORIZON - 2, gid, 1_699_999_990)
+    p1 = cand_block(HORIZON - 1, gid, 1_699_999_991)
+    zero2 = zero.add_block_no_validation(p2).add_block_no_validation(p1)
+    b0 = with_id(cand_block(HORIZON, p1.hash(), 1_700_000_000), bytes.fromhex(T[HORIZON]))
     b1 = cand_block(HORIZON + 1, unk, 1_700_000_000)
     b1k = cand_block(HORIZON + 1, gid, 1_700_000_000)        # known parent, but wrong height/target/evidence
-    b1m = cand_block(HORIZON - 1, unk, 1_700_000_000)        # below the horizon, not a checkpoint: not validated
+    b1m = cand_block(HORIZON - 1, p2.hash(), 1_700_000_000)  # below the horizon, not a checkpoint: not validated
     for name, b, expect in (('at-horizon-right-id', b0, True), ('above-horizon-unknown-parent', b1, False),
                             ('above-horizon-known-parent-bad-header', b1k, False), ('below-horizon-between', b1m, True)):
         n += 1
         try:
-            consensus.validate_block_in_coinstate(b, zero)
+            consensus.validate_block_in_coinstate(b, zero2)
             acc = True
         except Exception:
             acc = False
